@@ -78,7 +78,7 @@ func genC15(t *rapid.T) *Case {
 		case 1:
 			c.Input = BStr(rapid.SampledFrom([]string{"", " ", "\n", "\t \r\n", "x\n", "<b>x</b>\n", "%s %d", "\xff\xfe", "\x00"}).Draw(t, "special"))
 		default:
-			c.Input = BStr(genSoup(t, m, &soupOpts{els: []string{"font", "html", "body", "title", "style", "button", "a", "img"}, attrs: []string{"style", "color", "bgcolor", "border", "type", "href", "src", "class"}}))
+			c.Input = BStr(genSoup(t, m, &soupOpts{els: []string{"font", "html", "body", "title", "style", "button", "a", "img"}, attrs: []string{"style", "color", "bgcolor", "border", "type", "href", "src", "class", "cellpadding", "cellspacing", "align", "width", "height", "valign", "id", "title", "alt", "rel", "target"}}))
 		}
 		return c
 	}
